@@ -18,13 +18,16 @@
    [olds_fixed], and C04_retry_nested_inv with no premise on the old manifests under the
    invariants commit preserves on the final cache; the statement with the naive premise "old
    manifests read the same" is refuted by a closed witness (a file whose bytes are a manifest).
-   proof, partial: [tree_state] is a hand-written characterisation of the states a failed nested
-   commit can leave (as flat_state is), not derived from the cut semantics; the correspondence
+   C04_retry_from_restored_cut ties this to the cut semantics of Model/Crash.v: from EVERY cut of a
+   nested commit, once the error path has put back the entries that were moved away, the re-run
+   returns the undisturbed result (C04_retry_from_cut: the same for cuts in which no entry is
+   missing, e.g. every cut of a copy commit or of a commit into a cache on another device).
+   proof, partial: system calls are atomic and a failing call has no partial effect; the correspondence
    check injects EIO / ENOSPC / EACCES at EVERY mutating system call of the real binary, then
    retries, and places un-committable entries at every position; a failing call has no partial
    effect (real ENOSPC in the middle of a write may). *)
 From Coq Require Import NArith List Bool.
-From DudV Require Import Base.Bytes Model.Fs Model.Cache Model.Crash Proofs.CacheDefs Proofs.CommitProofs Proofs.CrashProofs Proofs.NestedRetryProofs.
+From DudV Require Import Base.Bytes Model.Fs Model.Cache Model.Crash Proofs.CacheDefs Proofs.CommitProofs Proofs.CrashProofs Proofs.NestedRetryProofs Proofs.CutRetryProofs.
 Import ListNotations.
 
 Theorem C04_fail_is_cut :
@@ -103,3 +106,28 @@ Theorem C04_retry_nested_inv :
                 cache_le cf cf1 /\ cache_le cf1 cf.
 Proof. exact C04_retry_nested_inv. Qed.
 Print Assumptions C04_retry_nested_inv.
+
+(* from the cut semantics: every state a kill or a failing call can leave (Model/Crash.commit_cut),
+   with the entries that were moved away put back by the error path, re-commits to the undisturbed
+   result; [ntree]: distinct entry names; [resolved]: the links of the original tree resolve *)
+Theorem C04_retry_from_restored_cut :
+  forall (H : bytes -> bytes) st cr a n s c c1 nf cf af,
+    H_inj H -> cache_ok H c -> resolved c n -> ntree n ->
+    man_plain cf -> man_closed cf -> art_hist_ok cf a ->
+    commit_cut H st cr a n c (s, c1) ->
+    commit_node H a n c st = Ok (nf, cf, af) ->
+    exists cf1, commit_node H a (restore_slot n s) c1 st = Ok (nf, cf1, af) /\
+                cache_le cf cf1 /\ cache_le cf1 cf.
+Proof. exact C04_retry_from_restored_cut. Qed.
+Print Assumptions C04_retry_from_restored_cut.
+
+Theorem C04_retry_from_cut :
+  forall (H : bytes -> bytes) st cr a n n1 c c1 nf cf af,
+    H_inj H -> cache_ok H c -> resolved c n ->
+    man_plain cf -> man_closed cf -> art_hist_ok cf a ->
+    commit_cut H st cr a n c (Some n1, c1) -> all_present n n1 ->
+    commit_node H a n c st = Ok (nf, cf, af) ->
+    exists cf1, commit_node H a n1 c1 st = Ok (nf, cf1, af) /\
+                cache_le cf cf1 /\ cache_le cf1 cf.
+Proof. exact C04_retry_from_cut. Qed.
+Print Assumptions C04_retry_from_cut.
